@@ -224,6 +224,123 @@ func tailGrid(c *fw.Ctx) {
 	}
 }
 
+// selfEmbed: files that hold an image of their OWN footer.  tailstr's last
+// column chunk is one uncompressed page of three strings: a pad, then
+// V = <the file's footer><its length>PAR1, then a tail.  The prefix that ends
+// right after V ends like a complete file whose footer describes pages that
+// are no longer all there: only the missing tail of the last page tells.  The
+// pad length places the end of V at body start + m for the sizes m at which a
+// reader might read a page in steps (4 KiB ... 1 MiB).  Cuts within 9 bytes of
+// that point are tried.
+func selfEmbed(c *fw.Ctx) {
+	if !sut.Has("tailstr") {
+		return
+	}
+	t := sut.Get("tailstr")
+	ms := []int{4096, 8192, 32768, 65536, 131072}
+	if c.Thorough() {
+		ms = append(ms, 16384, 262144, 1<<20, 2<<20)
+	}
+	c.Bound("self_embedded_footer_alignments", ms)
+	for _, m := range ms {
+		if !c.MineKey(fmt.Sprintf("selfembed|%d", m)) {
+			continue
+		}
+		file, at, err := buildSelfEmbed(t, m)
+		if err != nil {
+			c.Note("self-embedding file for alignment %d could not be built: %v", m, err)
+			continue
+		}
+		name := fmt.Sprintf("tailstr/uncompressed/selfembed-%d", m)
+		wlCache[name] = families.Workload{Name: name, Target: "tailstr"}
+		fileCache[name] = file
+		for n := at - 9; n <= at+9; n++ {
+			c.Eval()
+			c.Distinct(fmt.Sprintf("%s|%d", name, n))
+			if msg := runPrefixOf(t, file, n, 3); msg != "" {
+				c.Violate(fmt.Sprintf("tailstr|self-embedded footer, cut at body+%d%+d|%s", m, n-at, classify(msg)), msg+fmt.Sprintf("\nworkload %s: the last page holds <pad><own footer, length, PAR1><tail>; the copy ends %d bytes into the page body, the file is cut %d bytes from there", name, m, n-at), "selfembed", tcase{name, n})
+			}
+		}
+		delete(fileCache, name)
+		delete(wlCache, name)
+	}
+}
+
+// buildSelfEmbed returns the file and the offset right after the embedded copy.
+func buildSelfEmbed(t *sut.Target, m int) ([]byte, int, error) {
+	flen := 200
+	for iter := 0; iter < 8; iter++ {
+		vlen := flen + 8
+		padLen := m - 8 - vlen
+		if padLen < 1 {
+			return nil, 0, fmt.Errorf("alignment %d too small for a footer of %d bytes", m, flen)
+		}
+		mk := func(v []byte) ([]byte, error) {
+			recs := []refpq.Val{
+				{Group: []refpq.Val{{Leaf: int32(1)}, {Leaf: strings.Repeat("\x00", padLen)}}},
+				{Group: []refpq.Val{{Leaf: int32(2)}, {Leaf: string(v)}}},
+				{Group: []refpq.Val{{Leaf: int32(3)}, {Leaf: strings.Repeat("\xff", 300)}}},
+			}
+			f, err, pm := drive.WriteFile(t, [][]interface{}{oracle.GoRecs(t, recs)}, nil, 3, sut.Uncompressed, nil)
+			if err != nil || pm != "" {
+				return nil, fmt.Errorf("%v %s", err, pm)
+			}
+			return f, nil
+		}
+		ph := bytes.Repeat([]byte{0x20}, vlen)
+		f1, err := mk(ph)
+		if err != nil {
+			return nil, 0, err
+		}
+		pf, err := refpq.ParseFile(f1, refpq.ParseOptions{})
+		if err != nil {
+			return nil, 0, err
+		}
+		if pf.FooterLen != flen {
+			flen = pf.FooterLen
+			continue
+		}
+		foot := f1[pf.FooterStart : pf.FooterStart+pf.FooterLen]
+		v := append(append([]byte(nil), foot...), byte(flen), byte(flen>>8), byte(flen>>16), byte(flen>>24))
+		v = append(v, "PAR1"...)
+		f2, err := mk(v)
+		if err != nil {
+			return nil, 0, err
+		}
+		pf2, err := refpq.ParseFile(f2, refpq.ParseOptions{})
+		if err != nil || len(pf2.Problems) > 0 {
+			return nil, 0, fmt.Errorf("second pass invalid: %v", err)
+		}
+		if !bytes.Equal(f2[pf2.FooterStart:pf2.FooterStart+pf2.FooterLen], foot) {
+			return nil, 0, fmt.Errorf("footer changed between passes")
+		}
+		chunks := pf2.RowGroups[0].Chunks
+		pg := chunks[len(chunks)-1].Pages[0]
+		at := pg.Offset + pg.HeaderLen + m
+		if !bytes.Equal(f2[at-len(v):at], v) {
+			return nil, 0, fmt.Errorf("copy not where expected")
+		}
+		return f2, at, nil
+	}
+	return nil, 0, fmt.Errorf("footer length did not settle")
+}
+
+// runPrefixOf is runPrefix for an explicit file.
+func runPrefixOf(t *sut.Target, file []byte, n, nrecs int) string {
+	prefix := file[:n]
+	rr := drive.ReadAll(t, bytes.NewReader(prefix), nrecs+8)
+	if rr.Panic != "" {
+		return "panic: " + rr.Panic
+	}
+	if rr.OpenErr != nil || rr.Err != nil {
+		return ""
+	}
+	if pf, err := refpq.ParseFile(prefix, refpq.ParseOptions{}); err == nil && len(pf.Problems) == 0 {
+		return ""
+	}
+	return fmt.Sprintf("a file cut to %d of %d bytes is accepted: constructor ok, Error()==nil, %d rows delivered (Rows()=%d)", n, len(file), len(rr.Recs), rr.Rows)
+}
+
 func run(c *fw.Ctx) {
 	thoroughTier = c.Thorough()
 	var names []string
@@ -237,6 +354,7 @@ func run(c *fw.Ctx) {
 	}
 	c.Bound("files", bd)
 	defer tailGrid(c)
+	defer selfEmbed(c)
 	for _, name := range names {
 		w := workloads()[name]
 		file := fileOf(w)
@@ -282,6 +400,16 @@ func replay(c *fw.Ctx, kind string, data json.RawMessage) string {
 	if err := json.Unmarshal(data, &tc); err != nil {
 		return "bad case: " + err.Error()
 	}
+	if strings.Contains(tc.Workload, "/selfembed-") {
+		var m int
+		fmt.Sscanf(tc.Workload[strings.Index(tc.Workload, "/selfembed-"):], "/selfembed-%d", &m)
+		t := sut.Get("tailstr")
+		file, _, err := buildSelfEmbed(t, m)
+		if err != nil {
+			return "harness: " + err.Error()
+		}
+		return runPrefixOf(t, file, tc.Len, 3)
+	}
 	w, ok := workloads()[tc.Workload]
 	if !ok {
 		var tn string
@@ -312,7 +440,7 @@ func Main() {
 	fw.Main(fw.Spec{
 		ID:    "C11",
 		Level: "fault_enumeration",
-		Rule: "every strict prefix (every byte length 0..len-1) of every workload file (mini, person x 3 codecs x {1 page, multi-page, 2 row groups}; flat24 x 3 codecs x 3 row groups; mini files whose string data embeds <footer image of the file's first row group><length>XXXX with image lengths below and above 4 KiB (and 64 KiB in thorough), so that some prefixes end like a complete file except for the magic bytes) is opened and iterated with the documented loop. " +
+		Rule: "every strict prefix (every byte length 0..len-1) of every workload file (mini, person x 3 codecs x {1 page, multi-page, 2 row groups}; flat24 x 3 codecs x 3 row groups; mini files whose string data embeds <footer image of the file's first row group><length>XXXX with image lengths below and above 4 KiB (and 64 KiB in thorough), so that some prefixes end like a complete file except for the magic bytes; tailstr files whose last page holds a copy of the file's OWN footer + length + magic ending 4 KiB ... 128 KiB (thorough: ... 2 MiB) into the page body, cut within 9 bytes of that point) is opened and iterated with the documented loop. " +
 			"Oracle: constructor error or Error() non-nil after iteration; no panic. distinct = (file, prefix length)",
 		Assumptions: []string{
 			"a prefix that is itself a complete valid file (an embedded footer image inside a value) would be legitimately accepted; the workload values contain none, and any accepted prefix is re-validated with the reference parser before it is called a violation",
